@@ -221,6 +221,15 @@ def run(ctx):
            what="after a record fails its checksum recover_internal can read further records (the next file): the recovered state is "
                 "not a prefix of the issued operations", where=ri.loc(rcalls[0][1]["line"]))
 
+    # log files are replayed in sequence order
+    glf = P.fn("WalRecovery::get_log_files")
+    sorts = any(callee_name(t).split("::")[-1] in ("sort", "sort_by", "sort_by_key", "sort_unstable", "sort_unstable_by", "sort_unstable_by_key")
+                for g in P.family(glf) for bi, t in g.calls())
+    uses = any(callee_name(t) == glf.id for bi, t in ri.calls())
+    ctx.ob("R5", "recover_internal#files-in-sequence-order", sorts and uses,
+           what="recovery does not replay the log files in sorted (sequence) order: directory order is arbitrary, so later records can "
+                "be applied before earlier ones", where=glf.loc())
+
     # ------------------------------------------------------------------ R6 tail repair before the first append
     wc = P.fn("WalManager::with_config")
     eal = P.fn("WalManager::ensure_active_log")
@@ -256,6 +265,18 @@ def run(ctx):
         ctx.ob("R6", "%s#every-scan-exit-truncates" % short_id(fid), ok,
                what="the tail-repair routine can leave its record scan and return without comparing the valid length with the file "
                     "length: a partial record (even 1-3 bytes of a length prefix) stays in front of the next append", where=f.loc())
+    # the log that is appended to is the NEWEST one: the starting sequence is the maximum of the sequences found
+    wcx = FlowCx(P, wc)
+    seq_ok = False
+    for (bi, si, rv, ln) in find_aggregates(wc, "wal::log::WalManager"):
+        for fname, op in zip(rv[5], rv[4]):
+            if fname.strip('"') == "current_sequence":
+                tg = wcx.tags(op)
+                seq_ok = any(x.startswith("call:") and x.split("::")[-1] in ("max", "max_by_key", "max_by") for x in tg) and \
+                    not any(x.startswith("call:") and x.split("::")[-1] in ("min", "min_by_key", "min_by") for x in tg)
+    ctx.ob("R6", "WalManager::with_config#appends-to-newest", seq_ok,
+           what="WalManager::with_config does not start from the maximum existing log sequence: new records are appended to an older "
+                "file and replayed before (or instead of) later ones", where=wc.loc())
     # the repair routine stops at the first record whose checksum does not match
     for fid in direct:
         f = P.fns[fid]
@@ -284,6 +305,17 @@ def run(ctx):
                        what="records are added to the committed result outside a TxCommit/Checkpoint arm (arms: %s): uncommitted or "
                             "aborted records can be replayed" % vs, where=ri.loc(t["line"]))
     ctx.floor("R7", n7, 2, "additions to the committed result in recover_internal")
+    # nothing is ever taken back out of the committed result (a checkpoint or abort record must not erase what earlier
+    # commit markers promoted: no materialised image exists to replace it)
+    shrink = []
+    for bi, t in ri.calls():
+        nm = callee_name(t).split("::")[-1]
+        if nm in ("clear", "truncate", "drain", "retain", "pop", "remove", "swap_remove", "split_off", "take") and t["args"]:
+            if root_locals(ri, t["args"][0]) & ret_roots:
+                shrink.append((nm, t["line"]))
+    ctx.ob("R7", "recover_internal#committed-never-shrinks", not shrink,
+           what="recover_internal removes records from the committed result (%s): operations that were committed before a "
+                "checkpoint / abort record are not replayed" % shrink, where=ri.loc())
 
     # ------------------------------------------------------------------ R8 modes / close / rotation
     lx = FlowCx(P, wl)
